@@ -54,6 +54,14 @@ def build_cases(tr, mode):
             else:
                 d2 = d
             cases.append((s, -1, d2, p))
+    # one large database per scheme (17 000 postings: size thresholds of caches / batching far above the model's bounds)
+    for s in sc.SCHEMES:
+        if s == "CGKO06.SSE2":
+            continue
+        d = sc.default_config(s)
+        if s == "CGKO06.SSE1":
+            d = dict(d, param_s=32768, param_dictionary_size=256)
+        cases.append((s, -6, d, [100] * 168 + [130, 70]))
     # profiles on either side of every layout threshold that only larger databases reach, found by TLC (MC_Boundaries)
     bcfgs = se.boundary_families(tr)
     if tr == "thorough":
